@@ -384,6 +384,55 @@ def rule_transform(chk, db, cfgname):
                       'CrossSections have clockwise outlines (winding -1)', cfg=cfgname)
 
 
+def rule_eps(chk, db, cfgname):
+    chk.rule('C11.5', 'the arrangement epsilon handed to Boolean2D / ApplyFillRule by CrossSection and Offset is the '
+             'machine-scale InferEps(...) of the operands themselves - never the propagated tolerance_ (a drift '
+             'budget that SetTolerance / Simplify / far translations inflate): the set result is exact for points '
+             'farther than eps from the input edges')
+    n = 0
+    for f in db.functions.values():
+        if not f.get('blocks') or f['file'] not in ('src/cross_section.cpp', 'src/boolean2_offset.cpp'):
+            continue
+        for b in f['blocks']:
+            for e in b['ev']:
+                if e.get('k') != 'call' or T.short(e.get('fn', '')) not in ('Boolean2D', 'ApplyFillRule'):
+                    continue
+                # the double-typed argument
+                eps = [a for a in e.get('args', []) if db.T(f, T.strip_copy(a)).get('k') == 'f']
+                if not eps:
+                    continue
+                n += 1
+                a = unwrap(eps[0])
+                src = None
+                if a.get('k') == 'call' and T.short(a.get('fn', '')) == 'InferEps':
+                    src = 'InferEps(...)'
+                elif a.get('k') == 'var':
+                    defs = [x for x in local_defs(f, a['n']) if x[1] is not None]
+                    if defs and all(unwrap(x[1]).get('k') == 'call' and T.short(unwrap(x[1]).get('fn', '')) == 'InferEps'
+                                    for x in defs):
+                        src = '%s = InferEps(...)' % a['n']
+                elif a.get('k') == 'mem' and a.get('n') == 'tolerance_' and T.strip(a['base']).get('k') == 'this':
+                    # tolerance_ assigned from InferEps earlier in the same (constructor) body
+                    for bb in f['blocks']:
+                        for ee in bb['ev']:
+                            if ee.get('k') == 'bin' and ee.get('op') == '=' and T.strip(ee['l']).get('k') == 'mem' and \
+                                    T.strip(ee['l']).get('n') == 'tolerance_' and \
+                                    unwrap(ee['r']).get('k') == 'call' and \
+                                    T.short(unwrap(ee['r']).get('fn', '')) == 'InferEps' and \
+                                    f.get('kind') == 'ctor':
+                                src = 'tolerance_ = InferEps(...) in the constructor'
+                ok = src is not None
+                chk.obligation(ok, {'function': f['name'][:60], 'line': e.get('ln'), 'call': T.short(e['fn']),
+                                    'eps argument': T.pstr(a)[:40], 'source': src or 'NOT InferEps'})
+                if not ok:
+                    chk.violation('C11.5', f, '%s eps <- %s' % (T.short(e['fn']), T.pstr(a)[:30]),
+                                  'the arrangement epsilon of %s is %s, which is not the InferEps of the operands: with '
+                                  'an inflated tolerance the sweep merges vertices and drops features up to that size, '
+                                  'so lattice results are no longer pixel-exact' % (T.short(e['fn']), T.pstr(a)[:40]),
+                                  line=e.get('ln'), cfg=cfgname)
+    chk.count('c11.5.eps_arguments', n)
+
+
 def main(chk, tier):
     import db as D
     configs = ['seq'] if tier == 'quick' else ['seq', 'par']
@@ -396,12 +445,14 @@ def main(chk, tier):
         rule_producers(chk, db, cfgname, tab, None)
         rule_offset(chk, db, cfgname)
         rule_transform(chk, db, cfgname)
+        rule_eps(chk, db, cfgname)
         import scratch
         scratch.rule(chk, db, cfgname, 'C11.4', file_filter=('src/boolean2.cpp', 'src/boolean2_sweep.cpp', 'src/boolean2_offset.cpp', 'src/cross_section.cpp'))
     n = len(configs)
     chk.floor('c11.1.shared_paths_calls', 12 * n)
     chk.floor('c11.2.offset_returns', 3 * n)
     chk.floor('c11.3.transform_bodies', n)
+    chk.floor('c11.5.eps_arguments', 5 * n)
     chk.floor('c11.4.scratch_buffers', 5 * n)
     return chk.finish(
         'Who-may-construct analysis of CrossSection: every route by which contours reach the stored PathImpl is '
